@@ -375,14 +375,14 @@ def plan_C07(prop, tier, seed, t0):
     T = dict(module="Trace_Scalar.tla", cfg="Trace_Scalar.cfg")
     traces = [
         dict(name="hist", engine="scalar", args=["--dyadic", 160 if q else 3000, "--scalar", 160 if q else 3000, "--len", 60], **T),
-        dict(name="long", engine="scalar", args=["--dyadic", 16 if q else 200, "--scalar", 16 if q else 200, "--len", 400], **T),
+        dict(name="long", engine="scalar", args=["--dyadic", 24 if q else 300, "--scalar", 24 if q else 300, "--len", 150], **T),
     ]
     return run_plan(prop, tier, seed, t0, mcs, traces, "model_checking", COMMON_ASSUME + [
                         "arbitrary-precision arithmetic is written in TLA+ (spec/BigNat.tla) and evaluated by TLC; mantissas travel as base-2^15 limbs",
                         "exponents are kept where doubles exist (|log2| <= 900): exponent overflow is outside the property"],
                     "MC: ring laws, conjugation, roots of unity, sqrt2 powers, multiplicativity of |z|^2, exact phase recognition on the algebraic "
-                    "specification (Ring.tla) over all pairs of small elements; TRACE: one execution = one seeded history of 60-400 operations on "
-                    "registers of Dyadic / Scalar4 values (constants incl. full 64-bit mantissas, doubles, phases; + - * neg conj sqrt2-powers "
+                    "specification (Ring.tla) over all pairs of small elements; TRACE: one execution = one seeded history of 60-150 operations on "
+                    "registers of Dyadic / Scalar4 values, multiplication depth <= 6 so that the exact ghosts stay small (constants incl. full 64-bit mantissas, doubles, phases; + - * neg conj sqrt2-powers "
                     "phases; comparisons, tests, views, float conversions); TLC recomputes the exact value of every register with BigNat and decides "
                     "Normalised, Honest (unflagged => exact), order / abs_diff_eq / tests, float conversions within 1e-12; non-trivial = operations producing a value")
 
